@@ -318,6 +318,7 @@ func init() {
 
 func progsC05(t *testing.T) {
 	progsArrowContext(t, "C05", []string{"LiftF", "TryF"})
+	progsPingPong(t, "C05", []string{"Map", "FMap", "Filter", "TakeWhile", "Take", "Partition"})
 	progsHuge(t, "C05")
 	progsSlow(t, "C05")
 	progsInPlaceMonoid(t, "C05", []int{0})
@@ -610,6 +611,7 @@ func progsC09(t *testing.T) {
 	progsSlow(t, "C09")
 	progsSlowErrors(t, "C09", []string{"fork.Map", "fork.FMap"})
 	progsArrowContext(t, "C09", []string{"fork.LiftF"})
+	progsPingPong(t, "C09", []string{"fork.Map", "fork.Filter"})
 	typedProgs(t, "C09")
 	for _, par := range widePars() {
 		for _, n := range []int{par, 2*par + 1, 4*par + 40, 1000} {
